@@ -307,7 +307,9 @@ func convertClusterError(err error) error {
 // isOperable controls bootstrapping status and cluster quorum to prevent split-brain syndrome.
 func (db *Olric) isOperable() error {
 	if err := db.rt.CheckMemberCountQuorum(); err != nil {
-		return convertClusterError(err)
+		// Return the registered protocol error. The precondition function writes it to the wire
+		// with its CLUSTERQUORUM prefix and the clients convert it to ErrClusterQuorum.
+		return err
 	}
 	// An Olric node has to be bootstrapped to function properly.
 	return db.rt.CheckBootstrap()
